@@ -70,7 +70,7 @@ def malformed(rng, xml, sp):
 
 
 def generate(rng, tier):
-    ndefs = 16 if tier == "quick" else 250
+    ndefs = 28 if tier == "quick" else 250
     docs = []
     for _ in range(ndefs):
         d = defgen.Defn(rng, max_depth=rng.choice([1, 2, 3]), fanout=3, adj_pool=c09.ADJ_POOL, rich=True, odd_names=True)
